@@ -224,7 +224,13 @@ def gen_random(ck, n):
         beh = [{"a": "init", "arg": {"data": data, "lo": lo, "hi": hi, "ranged": 0 if rng.random() < 0.05 else 1,
                                      "lim": 65535, "shift": rng.choice([0, 0, 1, 7, 30])}}]
         kind = rng.random()
-        if kind < 0.25:
+        if kind < 0.15 and data:
+            # second dimension of the same length against the same range
+            d2, _, _ = rand_data(rng)
+            d2 = [rng.choice([lo - 3, lo, hi, hi + 2, (lo + hi) // 2] + d2) for _ in data]
+            beh[0]["arg"]["data2"] = d2
+            beh.append({"a": "apply2", "arg": {"mode": rng.choice(["fresh", "set"])}})
+        elif kind < 0.25:
             beh.append({"a": "apply", "arg": {"mode": rng.choice(["fresh", "set"])}})
             if data and rng.random() < 0.7:
                 beh.append({"a": "poly", "arg": {"x": 0}})
@@ -270,8 +276,15 @@ def gen_long(ck, n):
             for p in range(rng.choice([1, 2, 65532, 65533, 65534]), total):
                 data[p] = 6
         beh = [{"a": "init", "arg": {"data": data, "lo": lo, "hi": hi, "ranged": 1, "lim": 65535, "shift": 0}}]
-        mode = k % 3
-        if mode == 0:
+        mode = k % 4
+        if mode == 3:
+            d2 = [2] * total
+            for p in {rng.choice([0, 1, 65531, 65532, 65533, 65534, 65535, total - 1]) for _ in range(3)}:
+                if p < total:
+                    d2[p] = rng.choice([-2, 6])
+            beh[0]["arg"]["data2"] = d2
+            beh.append({"a": "apply2", "arg": {"mode": "set"}})
+        elif mode == 0:
             for _ in range(5):
                 beh.append({"a": "part", "arg": {"pct": 100}})
                 beh.append({"a": "join", "arg": {"x": 0}})
@@ -289,7 +302,7 @@ def nontrivial_beh(beh, recs):
         o = r.get("obs") or {}
         if o.get("cut") or o.get("trim") or o.get("ret") == "ok" and r.get("a") == "join":
             return True
-        for p in o.get("parts") or []:
+        for p in (o.get("parts") or []) + (o.get("pparts") or []):
             if p[2] or p[3]:
                 return True
     return False
